@@ -176,14 +176,6 @@ class Mux:
                             f"{data[:30].hex()}.. from {src}", case) from None
         prefix = bytes(data[:22])
         expected = self.prefixes.get(prefix, [])
-        if self.kind == "stats":
-            # the statistics decorator keeps listener tables of its own; which listener is reached through it is its
-            # business - here only "returns normally" (N1) and "handlers run under their own prefix" (N3) are judged
-            for ov, head in tr["handlers"]:
-                if head != ov.get_prefix():
-                    raise Violation("N3", f"handler:{type(ov).__name__}", f"a message handler of {type(ov).__name__} ran for "
-                                                                          f"a datagram with a foreign prefix", case)
-            return bool(expected)
         if rec.got != [data]:
             raise Violation("N2", "catch_all", f"the catch-all listener received the datagram {len(rec.got)} times", case)
         for l in expected:
